@@ -8,6 +8,8 @@ DESIGN.md section 7).  Two necessary conditions are decided by the solver:
  (2) non-degeneracy on the REAL placement kernels with the REAL fasthash64 inlined (precise 64-bit multiplication, 8-byte
      symbolic keys): for row pairs (a, b) and widths W the solver exhibits two keys that collide in row a but not in row b; `unsat` would mean the rows are
      functionally dependent;
+ (4) joint coverage on the REAL placement kernels: every pair (column in row a, column in row b) is owned by some key
+     (concrete witnesses on real sketches, the solver for cells without one; `unsat` = unreachable cell, replayed);
  (3) sensitivity on the REAL fasthash64: for every byte position of keys of the listed lengths the solver exhibits two byte
      values with different hashes; `unsat` = keys differing only there share their cell in EVERY row (replayed)."""
 import os
@@ -205,6 +207,37 @@ def ob_independent(kind, a, b, W, timeout_ms):
     return {"status": "proved", "stats": stats.as_dict(), "funcs": funcs, "note": "witness keys confirmed on real sketches"}
 
 
+def ob_joint(kind, a, b, W, timeout_ms):
+    """(4) joint coverage, a necessary condition for independent uniform rows: every pair (column in row a, column in
+    row b) is owned by some 8-byte key.  Witnesses are existential: a concrete key placed in a real sketch settles a
+    cell; for every cell without such a witness (and for 4 arbitrary cells in any case) the solver is asked on the real
+    placement kernel with the real fasthash64 -- `unsat` = no 8-byte key at all reaches the cell (replayed with a larger
+    sample on real sketches)."""
+    import random
+    stats = common.Stats()
+    rnd = random.Random(W * 100 + a * 10 + b)
+    keys = [bytes(rnd.randrange(256) for _ in range(8)) for _ in range(max(4000, 40 * W * W))]
+    cols = _probe_cols(kind, W, keys)
+    seen = set((c[a], c[b]) for c in cols)
+    todo = [(x, y) for x in range(W) for y in range(W) if (x, y) not in seen]
+    extra = [(rnd.randrange(W), rnd.randrange(W)) for _ in range(4)]
+    k1 = [z3.BitVec(f"a{i}", 8) for i in range(8)]
+    c1, ex = _kernel_cols(kind, k1, W)
+    funcs = sorted(ex.funcs_encoded)
+    for n, (x, y) in enumerate(todo[:24] + extra):
+        r, m = common.z3check([c1[a] == x, c1[b] == y], timeout_ms, stats, label=f"{kind} width {W}: some key owns column {x} in row {a} and column {y} in row {b}")
+        if r == "unsat":
+            cex = {"kind": "joint-cell", "kernel": kind, "rows": [a, b], "width": W, "cell": [x, y], "cells_without_concrete_witness": len(todo)}
+            return {"status": "cex", "stats": stats.as_dict(), "funcs": funcs, "cex": cex, "replay": replay(cex), "finding_key": "joint-cell-unreachable"}
+        if r != "sat":
+            return {"status": "unknown", "stats": stats.as_dict(), "funcs": funcs, "note": f"{r} on cell {(x, y)}"}
+        K1 = bytes(ev(m, c) for c in k1)
+        p1 = _probe_cols(kind, W, [K1])[0]
+        if (p1[a], p1[b]) != (x, y):
+            return {"status": "unknown", "stats": stats.as_dict(), "funcs": funcs, "note": f"solver witness {K1.hex()} lands in {(p1[a], p1[b])} on the real sketch, not {(x, y)}"}
+    return {"status": "proved", "stats": stats.as_dict(), "funcs": funcs, "note": f"{len(seen)} of {W * W} cells witnessed by concrete keys on real sketches, {len(todo[:24]) + 4} by the solver"}
+
+
 def _ctx_bytes(L):
     import random
     rnd = random.Random(1000 + L)
@@ -259,6 +292,16 @@ def replay(cex):
     import numpy as np
     import random
     C = cmh.cm()
+    if cex["kind"] == "joint-cell":
+        a, b, W = cex["rows"][0], cex["rows"][1], cex["width"]
+        rnd = random.Random(11)
+        n = max(20000, 80 * W * W)
+        keys = [bytes(rnd.randrange(256) for _ in range(rnd.choice((3, 8, 8, 13)))) for _ in range(n)]
+        cols = _probe_cols(cex.get("kernel", "cm_linear"), W, keys)
+        seen = set((c[a], c[b]) for c in cols)
+        x, y = cex["cell"]
+        return {"reproduced": (x, y) not in seen and len(seen) < W * W, "cells_reached": len(seen), "cells": W * W,
+                "how": f"{n} random keys (3, 8 and 13 bytes) placed in real empty sketches of width {W}: the pair (row {a} column {x}, row {b} column {y}) is never produced; {W * W - len(seen)} of {W * W} pairs are never produced (expected for independent uniform rows: all are, {n // (W * W)} times each)"}
     if cex["kind"] == "insensitive-byte":
         ctx = list(bytes.fromhex(cex["context_hex"]))
         i = cex["pos"]
@@ -327,6 +370,11 @@ def main():
         [(k, a, b, W) for k in ("cm_linear", "cm_log16", "cm_log8") for (a, b) in ((0, 1), (0, 7), (3, 7), (2, 5), (1, 6)) for W in (2, 16, 61, 128)]
     for (k, a, b, W) in pairs:
         obs.append(common.Ob(f"real {k} placement with real fasthash64: rows {a},{b} not functionally dependent at width {W}", ob_independent, (k, a, b, W, tmo), hard_s=tmo / 1000 * 4 + 120, bounds={"kernel": k, "rows": [a, b], "width": W, "keys": "8 symbolic bytes each"}))
+    joint = [("cm_linear", 0, 4, 16), ("cm_linear", 0, 1, 16), ("cm_log16", 2, 6, 16), ("cm_log8", 1, 3, 8), ("cm_linear", 3, 7, 13)] if tier == "quick" else \
+        [(k, a, b, W) for k in ("cm_linear", "cm_log16", "cm_log8") for (a, b) in ((0, 4), (0, 1), (2, 6), (1, 3), (3, 7), (0, 2), (5, 7)) for W in (8, 16, 13, 32)]
+    for (k, a, b, W) in joint:
+        obs.append(common.Ob(f"real {k} placement: every (row {a} column, row {b} column) pair at width {W} is owned by some key", ob_joint, (k, a, b, W, tmo), hard_s=tmo / 1000 * 4 + 300,
+                             bounds={"kernel": k, "rows": [a, b], "width": W, "keys": "8 symbolic bytes (solver) / random 8-byte keys (concrete witnesses)"}))
     sensL = (list(range(1, 18)) + [24, 31, 32, 33, 63, 64, 65, 127, 128, 129, 255, 256, 257, 264]) if tier == "quick" else (list(range(1, 131)) + list(range(255, 265)) + [511, 512, 513])
     for L in sorted(sensL, reverse=True):
         obs.append(common.Ob(f"real fasthash64: every byte of a {L}-byte key influences the hash", ob_sensitive, (L, tmo), hard_s=tmo / 1000 + 600, bounds={"key_len": L, "positions": "all", "byte values": "symbolic pair", "other bytes": "fixed pseudo-random context"}))
@@ -336,7 +384,7 @@ def main():
         funcs.update(r.get("funcs") or [])
     return common.finish(
         PID, tier, "model_checking", obs, results, t0=t0, funcs=funcs,
-        bounds={"seeds": f"depth {DEPTH}, width symbolic in 1..{W0} (the seed expressions do not depend on the table size), all 8 placing kernels", "independence_witnesses": [list(p) for p in pairs], "byte_sensitivity_key_lengths": sorted(sensL)},
+        bounds={"seeds": f"depth {DEPTH}, width symbolic in 1..{W0} (the seed expressions do not depend on the table size), all 8 placing kernels", "independence_witnesses": [list(p) for p in pairs], "byte_sensitivity_key_lengths": sorted(sensL), "joint_coverage": [list(j) for j in joint]},
         stubs=["fasthash64 -> recorder of (key, seed term) in obligation (1); the REAL fasthash64 with precise bvmul in obligation (2)", "_log_counter -> identity (irrelevant to placement)", "64-bit multiplication uninterpreted in obligation (3) (sound for unsat; sat witnesses confirmed on the jitted hash)"],
         assumptions=["C11: fasthash64 is the published FastHash"],
         outside=["the statistical exp(-depth) bound itself and uniformity/independence of FastHash's output distribution: NOT decided (not encodable); only the necessary conditions above are claimed"],
